@@ -1,127 +1,156 @@
 //! C08 obligations: an execution context is a typed map from its scheme's
 //! fields to optional values.  Abstract view: slots[i] = values[i] (one per
-//! field) + the scheme identity.  Invariant: slot i is None or has the field's
-//! declared type.  Each operation's contract is stated from an arbitrary
-//! pre-state satisfying the invariant and over the WHOLE view.
+//! field), the list matchers, and the scheme identity.  Invariant: slot i is
+//! None or has the field's declared type.  Each operation's contract is stated
+//! from a pre-state satisfying the invariant and over the WHOLE view.
+//!
+//! Field types and value kinds are constants of each obligation (choosing them
+//! symbolically does not terminate under CBMC); leaves are symbolic.
 use super::super::*;
+use super::common::set_slots2;
+use crate::lhs_types::verif_kani::c08::{map_empty, map_is_borrowed};
+use crate::lhs_types::verif_kani::common::array_owned;
 use crate::lhs_types::{Array, Bytes, Map};
-use crate::scheme::verif_kani::common::{field_ref, scheme_of};
+use crate::list_matcher::{ListDefinition, ListMatcher};
+use crate::scheme::verif_kani::c08::scheme_named;
+use crate::scheme::verif_kani::common::{builder_of, field_ref, list_ref, push_list, scheme_of};
 use crate::types::Type;
-
-static BYTES: [u8; 2] = [0xff, 0x61];
+use serde::{Deserialize, Serialize};
 
 /// The type pool: 0 Int, 1 Bytes, 2 Array(Int), 3 Array(Bytes),
-/// 4 Array(Array(Int)), 5 Map(Int).
-fn ty(k: usize) -> Type {
-    match k {
+/// 4 Array(Array(Int)), 5 Map(Int), 6 Bool.
+/// (wrong primitive: 0/1/6; right container, wrong element: 2/3; right shape,
+/// wrong depth: 2/4; other container: 2/5.)
+fn ty<const K: usize>() -> Type {
+    match K {
         0 => Type::Int,
         1 => Type::Bytes,
         2 => Type::Array(Type::Int.into()),
         3 => Type::Array(Type::Bytes.into()),
         4 => Type::Array(Type::Array(Type::Int.into()).into()),
-        _ => Type::Map(Type::Int.into()),
+        5 => Type::Map(Type::Int.into()),
+        _ => Type::Bool,
     }
 }
 
-/// A value of pool type k carrying the marker `x` (so that two values of the
-/// same type can be told apart).
-fn value(k: usize, x: i64) -> LhsValue<'static> {
-    match k {
-        0 => LhsValue::Int(x),
-        1 => LhsValue::Bytes(Bytes::Borrowed(if x == 0 { &BYTES[..1] } else { &BYTES[..] })),
-        2 => LhsValue::Array(Array::try_from_vec(Type::Int, vec![LhsValue::Int(x)]).unwrap()),
-        3 => LhsValue::Array(Array::new(Type::Bytes)),
-        4 => LhsValue::Array(Array::new(Type::Array(Type::Int.into()))),
-        _ => LhsValue::Map(Map::new(Type::Int)),
+/// A value of pool type K carrying the leaf `m` (so that two values of the same
+/// type can be told apart).  Built by direct construction (no checked
+/// constructor: those are verified on their own in lhs_types/*/verif_kani/c08).
+fn value<const K: usize>(m: i64) -> LhsValue<'static> {
+    match K {
+        0 => LhsValue::Int(m),
+        1 => LhsValue::Bytes(Bytes::Owned(Box::new([m as u8]))),
+        2 => LhsValue::Array(array_owned(Type::Int, vec![LhsValue::Int(m)])),
+        3 => LhsValue::Array(array_owned(
+            Type::Bytes,
+            vec![LhsValue::Bytes(Bytes::Owned(Box::new([m as u8])))],
+        )),
+        4 => LhsValue::Array(array_owned(
+            Type::Array(Type::Int.into()),
+            vec![LhsValue::Array(array_owned(Type::Int, vec![LhsValue::Int(m)]))],
+        )),
+        5 => LhsValue::Map(map_empty(Type::Int, m & 1 == 0)),
+        _ => LhsValue::Bool(m & 1 == 0),
     }
 }
 
-/// Marker of a stored value (inverse of `value` where a marker exists).
-fn marker(v: &LhsValue<'_>) -> i64 {
-    match v {
-        LhsValue::Int(x) => *x,
-        LhsValue::Bytes(b) => (b.len() as i64) - 1,
-        LhsValue::Array(a) => match a.get(0) {
-            Some(LhsValue::Int(x)) => *x,
-            _ => -1,
+/// `v` is exactly `value::<K>(m)`: full nested type and leaf.
+fn is_value<const K: usize>(v: &LhsValue<'_>, m: i64) -> bool {
+    if v.get_type() != ty::<K>() {
+        return false;
+    }
+    match K {
+        0 => matches!(v, LhsValue::Int(x) if *x == m),
+        1 => matches!(v, LhsValue::Bytes(b) if b.len() == 1 && b[0] == m as u8),
+        2 => match v {
+            LhsValue::Array(a) => a.len() == 1 && matches!(a.get(0), Some(LhsValue::Int(x)) if *x == m),
+            _ => false,
         },
-        _ => -1,
+        3 => match v {
+            LhsValue::Array(a) => {
+                a.len() == 1 && matches!(a.get(0), Some(LhsValue::Bytes(b)) if b.len() == 1 && b[0] == m as u8)
+            }
+            _ => false,
+        },
+        4 => match v {
+            LhsValue::Array(a) => match a.get(0) {
+                Some(LhsValue::Array(inner)) => {
+                    a.len() == 1
+                        && inner.value_type() == Type::Int
+                        && inner.len() == 1
+                        && matches!(inner.get(0), Some(LhsValue::Int(x)) if *x == m)
+                }
+                _ => false,
+            },
+            _ => false,
+        },
+        5 => match v {
+            LhsValue::Map(mp) => mp.len() == 0 && map_is_borrowed(mp) == (m & 1 == 0),
+            _ => false,
+        },
+        _ => matches!(v, LhsValue::Bool(b) if *b == (m & 1 == 0)),
     }
 }
 
-fn invariant(ctx: &ExecutionContext<'_, ()>, ft: usize) -> bool {
-    let ok0 = match &ctx.values[0] {
-        None => true,
-        Some(v) => v.get_type() == ty(ft),
-    };
-    let ok1 = match &ctx.values[1] {
-        None => true,
-        Some(v) => v.get_type() == Type::Int,
-    };
-    ok0 && ok1 && ctx.values.len() == 2
+/// The slot is `None` (present == false) or holds exactly `value::<K>(m)`.
+fn slot_is<const K: usize>(slot: &Option<LhsValue<'_>>, present: bool, m: i64) -> bool {
+    match slot {
+        None => !present,
+        Some(v) => present && is_value::<K>(v, m),
+    }
 }
 
-/// K1 set_field_value for field type FT and a value of kind VK:
-/// Ok(prev) <=> the field belongs to the context's scheme and VK's full nested
+fn slot_of<const K: usize>(present: bool, m: i64) -> Option<LhsValue<'static>> {
+    if present { Some(value::<K>(m)) } else { None }
+}
+
+// ---------------------------------------------------------------------------
+// K1 + K2: set_field_value / get_field_value
+// ---------------------------------------------------------------------------
+
+/// K1 `set_field_value(field, v)` on a scheme (f0: FT, f1: Int), value of kind VK:
+/// Ok(prev) <=> the field belongs to the context's scheme AND VK's full nested
 /// type equals FT's; then slots' = slots[0 := Some(v)] and prev = old slot 0.
-/// Otherwise Err(SchemeMismatch | TypeMismatch{expected, actual}) and the
-/// whole view is unchanged.
-fn set_field_value_contract<const FT: usize, const VK: usize>() {
-    let s1 = scheme_of(&[(ty(FT), true), (Type::Int, true)], true);
-    let s2 = scheme_of(&[(ty(FT), true), (Type::Int, true)], true);
+/// Otherwise Err(SchemeMismatch | TypeMismatch{actual}) and the WHOLE view is
+/// unchanged.  K2: `get_field_value` reads exactly the slot afterwards.
+/// Symbolic: all leaves, presence of both slots.  Constants: FT, VK and whether
+/// the field handle comes from a second, structurally identical scheme.
+fn set_field_value_contract<const FT: usize, const VK: usize, const FOREIGN: bool>() {
+    let s1 = scheme_of(&[(ty::<FT>(), true), (Type::Int, true)], true);
+    let s2 = scheme_of(&[(ty::<FT>(), true), (Type::Int, true)], true);
     let mut ctx = ExecutionContext::<()>::new(&s1);
-    // arbitrary pre-state satisfying the invariant
     let p0: i64 = kani::any();
     let p1: i64 = kani::any();
+    let x: i64 = kani::any();
     let had0: bool = kani::any();
     let had1: bool = kani::any();
-    if had0 {
-        ctx.values[0] = Some(value(FT, p0));
-    }
-    if had1 {
-        ctx.values[1] = Some(LhsValue::Int(p1));
-    }
-    assert!(invariant(&ctx, FT));
-    let foreign: bool = kani::any();
-    let x: i64 = kani::any();
-    kani::assume(p0 >= 0 && p0 <= 1 && x >= 0 && x <= 1);
-    let v = value(VK, x);
-    let r = ctx.set_field_value(field_ref(if foreign { &s2 } else { &s1 }, 0), v);
+    set_slots2(&mut ctx, slot_of::<FT>(had0, p0), slot_of::<0>(had1, p1));
+    let foreign = FOREIGN;
+
+    let r = ctx.set_field_value(field_ref(if FOREIGN { &s2 } else { &s1 }, 0), value::<VK>(x));
+
+    let should_succeed = !foreign && ty::<FT>() == ty::<VK>();
+    let mut outcome = 0u8;
     match r {
         Ok(prev) => {
+            outcome = 1;
             assert!(!foreign, "a field of another (structurally identical) scheme must be refused");
-            assert!(FT == VK, "a value whose full nested type differs from the field's must be refused");
-            assert!(prev.is_some() == had0, "the previously stored value is returned");
-            if let Some(p) = &prev {
-                assert!(p.get_type() == ty(FT) && (FT > 2 || marker(p) == p0));
-            }
-            match &ctx.values[0] {
-                Some(now) => {
-                    assert!(now.get_type() == ty(FT) && (FT > 2 || marker(now) == x), "the slot holds the value just set");
-                }
-                None => {
-                    assert!(false, "the slot holds the value just set");
-                }
-            }
-            kani::cover!(had0, "overwrite");
-            kani::cover!(!had0, "first write");
+            assert!(ty::<FT>() == ty::<VK>(), "a value whose full nested type differs from the field's must be refused");
+            assert!(slot_is::<FT>(&prev, had0, p0), "the previously stored value is returned");
+            assert!(slot_is::<VK>(&ctx.values[0], true, x), "the slot holds the value just set");
             std::mem::forget(prev);
         }
         Err(SetFieldValueError::SchemeMismatch(_)) => {
-            assert!(foreign, "scheme mismatch only for a foreign field");
-            assert!(ctx.values[0].is_some() == had0, "failed set leaves the context unchanged");
-            if let Some(now) = &ctx.values[0] {
-                assert!(now.get_type() == ty(FT) && (FT > 2 || marker(now) == p0));
-            }
-            kani::cover!(FT == VK, "right type, wrong scheme");
+            outcome = 2;
+            assert!(foreign, "scheme mismatch only for a field of another scheme");
+            assert!(slot_is::<FT>(&ctx.values[0], had0, p0), "a failed set leaves the context unchanged");
         }
         Err(SetFieldValueError::TypeMismatch(e)) => {
-            assert!(!foreign && FT != VK, "type mismatch only for a differently typed value");
-            assert!(e.actual == ty(VK), "the error reports the value's type");
-            assert!(ctx.values[0].is_some() == had0, "failed set leaves the context unchanged");
-            if let Some(now) = &ctx.values[0] {
-                assert!(now.get_type() == ty(FT) && (FT > 2 || marker(now) == p0));
-            }
+            outcome = 3;
+            assert!(!foreign, "a foreign field is a scheme mismatch");
+            assert!(ty::<FT>() != ty::<VK>(), "a value of the field's own type must be accepted");
+            assert!(e.actual == ty::<VK>(), "the error reports the value's type");
+            assert!(slot_is::<FT>(&ctx.values[0], had0, p0), "a failed set leaves the context unchanged");
             std::mem::forget(e);
         }
         Err(e) => {
@@ -129,83 +158,85 @@ fn set_field_value_contract<const FT: usize, const VK: usize>() {
             assert!(false, "unexpected error kind");
         }
     }
-    // frame: the other slot is untouched in every case
-    match &ctx.values[1] {
-        Some(LhsValue::Int(q)) => {
-            assert!(had1 && *q == p1, "other fields are untouched");
+    assert!((outcome == 1) == should_succeed, "Ok exactly when the field is the context's and the types are equal");
+    // frame: the other slot and the shape of the context are untouched in every case
+    assert!(ctx.values.len() == 2);
+    assert!(slot_is::<0>(&ctx.values[1], had1, p1), "other fields are untouched");
+    assert!(*ctx.scheme() == s1, "the context stays bound to its scheme");
+    // invariant: every stored value has its field's declared type
+    assert!(match &ctx.values[0] {
+        None => true,
+        Some(v) => v.get_type() == ty::<FT>(),
+    });
+    // K2: reads return the last value set
+    match ctx.get_field_value(field_ref(&s1, 0)) {
+        Some(v) => {
+            if outcome == 1 {
+                assert!(is_value::<VK>(v, x), "reads return the last value set");
+            } else {
+                assert!(had0 && is_value::<FT>(v, p0), "reads return the last value set");
+            }
         }
         None => {
-            assert!(!had1, "other fields are untouched");
-        }
-        _ => {
-            assert!(false);
+            assert!(outcome != 1 && !had0, "reads return the last value set");
         }
     }
-    assert!(invariant(&ctx, FT), "every stored value has its field's declared type");
-    // K2: reads return the last value set
-    let got = ctx.get_field_value(field_ref(&s1, 1));
-    assert!(got.is_some() == had1);
+    match ctx.get_field_value(field_ref(&s1, 1)) {
+        Some(v) => {
+            assert!(had1 && is_value::<0>(v, p1));
+        }
+        None => {
+            assert!(!had1);
+        }
+    }
+    let expected_outcome = if FOREIGN {
+        2
+    } else if FT == VK {
+        1
+    } else {
+        3
+    };
+    kani::cover!(outcome == expected_outcome && had0 && had1, "both slots were occupied");
+    kani::cover!(outcome == expected_outcome && !had0 && !had1, "both slots were empty");
     std::mem::forget(ctx);
     std::mem::forget((s1, s2));
 }
 
 macro_rules! set_pairs {
-    ($($name:ident: $ft:literal, $vk:literal;)*) => {
+    ($($name:ident: $ft:literal, $vk:literal, $foreign:literal;)*) => {
         $(
             #[kani::proof]
             #[kani::unwind(4)]
             fn $name() {
-                set_field_value_contract::<$ft, $vk>()
+                set_field_value_contract::<$ft, $vk, $foreign>()
             }
         )*
     };
 }
 
 set_pairs! {
-    set_field_value__int_field_int_value: 0, 0;
-    set_field_value__int_field_bytes_value: 0, 1;
-    set_field_value__bytes_field_bytes_value: 1, 1;
-    set_field_value__int_field_array_int_value: 0, 2;
-    set_field_value__array_int_field_array_int_value: 2, 2;
-    set_field_value__array_int_field_array_bytes_value: 2, 3;
-    set_field_value__array_int_field_array_array_int_value: 2, 4;
-    set_field_value__array_array_int_field_array_int_value: 4, 2;
-    set_field_value__array_array_int_field_same: 4, 4;
-    set_field_value__array_int_field_int_value: 2, 0;
-    set_field_value__map_int_field_map_int_value: 5, 5;
-    set_field_value__map_int_field_array_int_value: 5, 2;
-    set_field_value__array_int_field_map_int_value: 2, 5;
+    set_field_value__int_field_int_value: 0, 0, false;
+    set_field_value__int_field_bytes_value: 0, 1, false;
+    set_field_value__int_field_bool_value: 0, 6, false;
+    set_field_value__bytes_field_bytes_value: 1, 1, false;
+    set_field_value__bytes_field_int_value: 1, 0, false;
+    set_field_value__int_field_array_int_value: 0, 2, false;
+    set_field_value__array_int_field_int_value: 2, 0, false;
+    set_field_value__array_int_field_array_int_value: 2, 2, false;
+    set_field_value__array_int_field_array_bytes_value: 2, 3, false;
+    set_field_value__array_int_field_array_array_int_value: 2, 4, false;
+    set_field_value__array_array_int_field_array_int_value: 4, 2, false;
+    set_field_value__array_array_int_field_same: 4, 4, false;
+    set_field_value__map_int_field_map_int_value: 5, 5, false;
+    set_field_value__map_int_field_array_int_value: 5, 2, false;
+    set_field_value__array_int_field_map_int_value: 2, 5, false;
+    set_field_value__foreign_int_field_int_value: 0, 0, true;
+    set_field_value__foreign_int_field_bytes_value: 0, 1, true;
+    set_field_value__foreign_array_int_field_array_int_value: 2, 2, true;
 }
 
-/// K2: get_field_value returns exactly the slot; a foreign field panics
-/// (the documented assertion), never reads another scheme's slot.
-#[kani::proof]
-#[kani::unwind(4)]
-fn get_field_value__returns_slot() {
-    let s1 = scheme_of(&[(Type::Int, true), (Type::Int, true)], true);
-    let mut ctx = ExecutionContext::<()>::new(&s1);
-    let a: i64 = kani::any();
-    let had: bool = kani::any();
-    if had {
-        ctx.values[1] = Some(LhsValue::Int(a));
-    }
-    let i: usize = kani::any();
-    kani::assume(i < 2);
-    match ctx.get_field_value(field_ref(&s1, i)) {
-        Some(LhsValue::Int(v)) => {
-            assert!(i == 1 && had && *v == a, "reads return the last value set");
-        }
-        None => {
-            assert!(i == 0 || !had);
-        }
-        _ => {
-            assert!(false);
-        }
-    }
-    std::mem::forget(ctx);
-    std::mem::forget(s1);
-}
-
+/// K2: a field of another scheme is a contract violation of get_field_value
+/// (documented assertion): it panics, it never reads another scheme's slot.
 #[kani::proof]
 #[kani::unwind(4)]
 #[kani::should_panic]
@@ -216,15 +247,395 @@ fn get_field_value__foreign_field_panics() {
     let _ = ctx.get_field_value(field_ref(&s2, 0));
 }
 
-/// Scheme identity: equal iff the very same registry (clone), never a
-/// structurally identical one.
+// ---------------------------------------------------------------------------
+// set_field_value_from_name (name lookup = trusted contract stub of Scheme::get_field)
+// ---------------------------------------------------------------------------
+
+/// `set_field_value_from_name(name, v)` on a scheme (a: FT, b: Int), both slots
+/// occupied (P = true) or empty, value of kind VK, NAME 0 = "a", 1 = "b",
+/// 2 = "zz" (unknown): Ok(prev) <=> the name is a field of the scheme and VK's
+/// full type equals that field's type; then that slot := v, prev = old slot;
+/// otherwise Err(UnknownField | TypeMismatch) and the WHOLE view is unchanged.
+fn set_by_name_contract<const FT: usize, const VK: usize, const NAME: usize, const P: bool>() {
+    let s = scheme_named(&[("a", ty::<FT>()), ("b", Type::Int)]);
+    let mut ctx = ExecutionContext::<()>::new(&s);
+    let p0: i64 = kani::any();
+    let p1: i64 = kani::any();
+    let x: i64 = kani::any();
+    set_slots2(&mut ctx, slot_of::<FT>(P, p0), slot_of::<0>(P, p1));
+    let name = match NAME {
+        0 => "a",
+        1 => "b",
+        _ => "zz",
+    };
+    let r = ctx.set_field_value_from_name(name, value::<VK>(x));
+    let target_ty = if NAME == 0 { ty::<FT>() } else { Type::Int };
+    let should_succeed = NAME < 2 && target_ty == ty::<VK>();
+    let mut outcome = 0u8;
+    match r {
+        Ok(prev) => {
+            outcome = 1;
+            assert!(should_succeed, "unknown names and ill-typed values must be refused");
+            if NAME == 0 {
+                assert!(slot_is::<FT>(&prev, P, p0), "the previously stored value is returned");
+                assert!(slot_is::<VK>(&ctx.values[0], true, x), "the named slot holds the value just set");
+                assert!(slot_is::<0>(&ctx.values[1], P, p1), "other fields are untouched");
+            } else {
+                assert!(slot_is::<0>(&prev, P, p1), "the previously stored value is returned");
+                assert!(slot_is::<VK>(&ctx.values[1], true, x), "the named slot holds the value just set");
+                assert!(slot_is::<FT>(&ctx.values[0], P, p0), "other fields are untouched");
+            }
+            std::mem::forget(prev);
+        }
+        Err(SetFieldValueError::UnknownField(_)) => {
+            outcome = 2;
+            assert!(NAME >= 2, "a registered name must be found");
+        }
+        Err(SetFieldValueError::TypeMismatch(e)) => {
+            outcome = 3;
+            assert!(NAME < 2 && target_ty != ty::<VK>(), "a value of the field's own type must be accepted");
+            assert!(e.actual == ty::<VK>(), "the error reports the value's type");
+            std::mem::forget(e);
+        }
+        Err(e) => {
+            std::mem::forget(e);
+            assert!(false, "unexpected error kind");
+        }
+    }
+    assert!((outcome == 1) == should_succeed);
+    if outcome != 1 {
+        assert!(slot_is::<FT>(&ctx.values[0], P, p0), "a failed set leaves the context unchanged (slot a)");
+        assert!(slot_is::<0>(&ctx.values[1], P, p1), "a failed set leaves the context unchanged (slot b)");
+    }
+    assert!(ctx.values.len() == 2);
+    kani::cover!(outcome == (if NAME >= 2 { 2 } else if should_succeed { 1 } else { 3 }));
+    std::mem::forget(ctx);
+    std::mem::forget(s);
+}
+
+macro_rules! by_name {
+    ($($name:ident: $ft:literal, $vk:literal, $n:literal, $p:literal;)*) => {
+        $(
+            #[kani::proof]
+            #[kani::unwind(4)]
+            #[kani::stub(crate::scheme::Scheme::get_field, crate::scheme::verif_kani::c08::get_field__contract)]
+            fn $name() {
+                set_by_name_contract::<$ft, $vk, $n, $p>()
+            }
+        )*
+    };
+}
+
+by_name! {
+    set_by_name__int_field_int_value_occupied: 0, 0, 0, true;
+    set_by_name__int_field_int_value_empty: 0, 0, 0, false;
+    set_by_name__int_field_bytes_value_occupied: 0, 1, 0, true;
+    set_by_name__int_field_bytes_value_empty: 0, 1, 0, false;
+    set_by_name__second_field_int_value_occupied: 1, 0, 1, true;
+    set_by_name__second_field_bytes_value_occupied: 1, 1, 1, true;
+    set_by_name__array_int_field_array_bytes_value_occupied: 2, 3, 0, true;
+    set_by_name__array_int_field_array_int_value_occupied: 2, 2, 0, true;
+    set_by_name__array_int_field_array_array_int_value_occupied: 2, 4, 0, true;
+    set_by_name__unknown_name_occupied: 0, 0, 2, true;
+}
+
+// ---------------------------------------------------------------------------
+// recording list matcher (as in c17.rs; a scheme with a list is needed to see
+// the matchers of clear / clone_with / borrow_with)
+// ---------------------------------------------------------------------------
+
+#[derive(Clone, Debug, PartialEq, Serialize, Deserialize)]
+struct Rec {
+    id: i64,
+    cleared: u8,
+}
+
+impl ListMatcher for Rec {
+    fn match_value(&self, _: &str, v: &LhsValue<'_>) -> bool {
+        matches!(v, LhsValue::Int(i) if *i == self.id)
+    }
+
+    fn clear(&mut self) {
+        self.cleared += 1;
+    }
+}
+
+#[derive(Debug)]
+struct Def(i64);
+
+impl ListDefinition for Def {
+    fn deserialize_matcher<'de>(
+        &self,
+        _: Type,
+        _: &mut dyn erased_serde::Deserializer<'de>,
+    ) -> Result<Box<dyn ListMatcher>, erased_serde::Error> {
+        unreachable!()
+    }
+
+    fn new_matcher(&self) -> Box<dyn ListMatcher> {
+        Box::new(Rec {
+            id: self.0,
+            cleared: 0,
+        })
+    }
+}
+
+fn rec(m: &dyn ListMatcher) -> &Rec {
+    m.as_any().downcast_ref::<Rec>().unwrap()
+}
+
+fn rec_mut(m: &mut dyn ListMatcher) -> &mut Rec {
+    m.as_any_mut().downcast_mut::<Rec>().unwrap()
+}
+
+/// Scheme (f0: K0, f1: K1) with two lists (Int -> Def(a), Ip -> Def(b)).
+fn scheme_with_lists<const K0: usize, const K1: usize>(a: i64, b: i64) -> Scheme {
+    let mut builder = builder_of(&[(ty::<K0>(), true), (ty::<K1>(), true)]);
+    push_list(&mut builder, Type::Int, Box::new(Def(a)));
+    push_list(&mut builder, Type::Ip, Box::new(Def(b)));
+    builder.build()
+}
+
+// ---------------------------------------------------------------------------
+// K3: clear
+// ---------------------------------------------------------------------------
+
+/// K3 `clear()`: afterwards every field is empty and `clear` was called exactly
+/// once on EVERY list matcher - whether or not any field value was set
+/// (presence pattern P0/P1 is a constant of the obligation, so the "nothing is
+/// set" context is its own obligation).  The scheme binding, the number of
+/// slots and the matchers' identity are kept.
+fn clear_contract<const K0: usize, const K1: usize, const P0: bool, const P1: bool>() {
+    let a: i64 = kani::any();
+    let b: i64 = kani::any();
+    let s = scheme_with_lists::<K0, K1>(a, b);
+    let mut ctx = ExecutionContext::<()>::new(&s);
+    let m0: i64 = kani::any();
+    let m1: i64 = kani::any();
+    set_slots2(&mut ctx, slot_of::<K0>(P0, m0), slot_of::<K1>(P1, m1));
+    assert!(ctx.list_matchers.len() == 2);
+    assert!(rec(&*ctx.list_matchers[0]).cleared == 0 && rec(&*ctx.list_matchers[1]).cleared == 0);
+
+    ctx.clear();
+
+    assert!(ctx.values.len() == 2);
+    assert!(ctx.values[0].is_none() && ctx.values[1].is_none(), "clear empties every field");
+    assert!(ctx.get_field_value(field_ref(&s, 0)).is_none() && ctx.get_field_value(field_ref(&s, 1)).is_none());
+    assert!(ctx.list_matchers.len() == 2);
+    assert!(rec(&*ctx.list_matchers[0]).cleared == 1, "clear is forwarded to the first list matcher");
+    assert!(rec(&*ctx.list_matchers[1]).cleared == 1, "clear is forwarded to every list matcher");
+    assert!(rec(&*ctx.list_matchers[0]).id == a && rec(&*ctx.list_matchers[1]).id == b);
+    assert!(*ctx.scheme() == s);
+    kani::cover!(true);
+    std::mem::forget(ctx);
+    std::mem::forget(s);
+}
+
+macro_rules! clear_harness {
+    ($($name:ident: $k0:literal, $k1:literal, $p0:literal, $p1:literal;)*) => {
+        $(
+            #[kani::proof]
+            #[kani::unwind(4)]
+            fn $name() {
+                clear_contract::<$k0, $k1, $p0, $p1>()
+            }
+        )*
+    };
+}
+
+clear_harness! {
+    clear__no_value_set_still_clears_matchers: 0, 1, false, false;
+    clear__first_set: 0, 1, true, false;
+    clear__second_set_bytes: 0, 1, false, true;
+    clear__both_set: 0, 1, true, true;
+    clear__array_value_set: 2, 0, true, true;
+}
+
+// ---------------------------------------------------------------------------
+// K4: clone_with
+// ---------------------------------------------------------------------------
+
+/// K4 `clone_with(u)`: the clone has the same scheme, an equal view (values and
+/// matcher state) and the given user data; afterwards the two are independent:
+/// a set / a matcher change on either side leaves the other unchanged.
+fn clone_with_contract<const K0: usize, const P0: bool, const P1: bool>() {
+    let a: i64 = kani::any();
+    let b: i64 = kani::any();
+    let s = scheme_with_lists::<K0, 6>(a, b);
+    let mut ctx = ExecutionContext::<()>::new(&s);
+    let m0: i64 = kani::any();
+    let m1: i64 = kani::any();
+    set_slots2(&mut ctx, slot_of::<K0>(P0, m0), slot_of::<6>(P1, m1));
+    let u: u8 = kani::any();
+
+    let mut c = ctx.clone_with(u);
+
+    assert!(*c.scheme() == s && *ctx.scheme() == s, "the clone is bound to the same scheme");
+    assert!(*c.get_user_data() == u);
+    assert!(c.values.len() == 2 && ctx.values.len() == 2);
+    assert!(slot_is::<K0>(&c.values[0], P0, m0) && slot_is::<6>(&c.values[1], P1, m1), "the clone has an equal view");
+    assert!(slot_is::<K0>(&ctx.values[0], P0, m0) && slot_is::<6>(&ctx.values[1], P1, m1), "cloning does not change the original");
+    assert!(c.list_matchers.len() == 2 && ctx.list_matchers.len() == 2);
+    assert!(rec(&*c.list_matchers[0]).id == a && rec(&*c.list_matchers[1]).id == b, "matchers are cloned with their state");
+
+    // a write to the clone is not seen by the original
+    let x: i64 = kani::any();
+    let r = c.set_field_value(field_ref(&s, 0), value::<K0>(x));
+    assert!(r.is_ok());
+    std::mem::forget(r);
+    assert!(slot_is::<K0>(&c.values[0], true, x));
+    assert!(slot_is::<K0>(&ctx.values[0], P0, m0), "a write to the clone leaves the original unchanged");
+    // a write to the original is not seen by the clone
+    let y: i64 = kani::any();
+    let r = ctx.set_field_value(field_ref(&s, 1), value::<6>(y));
+    assert!(r.is_ok());
+    std::mem::forget(r);
+    assert!(slot_is::<6>(&ctx.values[1], true, y));
+    assert!(slot_is::<6>(&c.values[1], P1, m1), "a write to the original leaves the clone unchanged");
+    // matcher state is independent too
+    let z: i64 = kani::any();
+    rec_mut(c.get_list_matcher_mut(list_ref(&s, 0))).id = z;
+    assert!(rec(&*ctx.list_matchers[0]).id == a, "matcher state of the original is independent of the clone");
+    assert!(rec(&*c.list_matchers[0]).id == z && rec(&*c.list_matchers[1]).id == b);
+    kani::cover!(x != m0 && z != a);
+    std::mem::forget(c);
+    std::mem::forget(ctx);
+    std::mem::forget(s);
+}
+
+macro_rules! clone_harness {
+    ($($name:ident: $k0:literal, $p0:literal, $p1:literal;)*) => {
+        $(
+            #[kani::proof]
+            #[kani::unwind(4)]
+            fn $name() {
+                clone_with_contract::<$k0, $p0, $p1>()
+            }
+        )*
+    };
+}
+
+clone_harness! {
+    clone_with__independent_both_set: 0, true, true;
+    clone_with__independent_none_set: 0, false, false;
+    clone_with__independent_first_set: 0, true, false;
+    clone_with__independent_bytes_value: 1, true, true;
+}
+
+// ---------------------------------------------------------------------------
+// K5: borrow_with / take_with
+// ---------------------------------------------------------------------------
+
+/// K5 `borrow_with(u)`: the guard sees the original's view (values and
+/// matchers) with the given user data; writes through the guard (a field value
+/// and a matcher's state) are the original's after the guard is dropped:
+/// values AND list matchers are restored, nothing else changes.
+fn borrow_with_contract<const P0: bool, const P1: bool>() {
+    let a: i64 = kani::any();
+    let b: i64 = kani::any();
+    let s = scheme_with_lists::<0, 6>(a, b);
+    let mut ctx = ExecutionContext::<u16>::new(&s);
+    let m0: i64 = kani::any();
+    let m1: i64 = kani::any();
+    set_slots2(&mut ctx, slot_of::<0>(P0, m0), slot_of::<6>(P1, m1));
+    let w: u16 = kani::any();
+    *ctx.get_user_data_mut() = w;
+    let u: u8 = kani::any();
+    let x: i64 = kani::any();
+    let z: i64 = kani::any();
+    {
+        let mut g = ctx.borrow_with(u);
+        assert!(*g.scheme() == s, "the borrowed context is bound to the same scheme");
+        assert!(*g.get_user_data() == u);
+        assert!(g.values.len() == 2);
+        assert!(slot_is::<0>(&g.values[0], P0, m0) && slot_is::<6>(&g.values[1], P1, m1), "the guard sees the original's values");
+        assert!(g.list_matchers.len() == 2 && rec(&*g.list_matchers[0]).id == a && rec(&*g.list_matchers[1]).id == b);
+        let r = g.set_field_value(field_ref(&s, 0), LhsValue::Int(x));
+        match r {
+            Ok(prev) => {
+                assert!(slot_is::<0>(&prev, P0, m0));
+                std::mem::forget(prev);
+            }
+            Err(e) => {
+                std::mem::forget(e);
+                assert!(false, "a well-typed set through the guard succeeds");
+            }
+        }
+        rec_mut(g.get_list_matcher_mut(list_ref(&s, 1))).id = z;
+        // guard dropped here: the original is restored
+    }
+    assert!(ctx.values.len() == 2, "the values are restored into the original");
+    assert!(slot_is::<0>(&ctx.values[0], true, x), "a write through the guard is seen by the original");
+    assert!(slot_is::<6>(&ctx.values[1], P1, m1), "untouched fields are restored unchanged");
+    assert!(ctx.list_matchers.len() == 2, "the list matchers are restored into the original");
+    assert!(rec(&*ctx.list_matchers[0]).id == a, "untouched matchers are restored unchanged");
+    assert!(rec(&*ctx.list_matchers[1]).id == z, "matcher state written through the guard is seen by the original");
+    assert!(*ctx.get_user_data() == w, "the original's user data is its own");
+    assert!(*ctx.scheme() == s);
+    match ctx.get_field_value(field_ref(&s, 0)) {
+        Some(LhsValue::Int(v)) => {
+            assert!(*v == x);
+        }
+        _ => {
+            assert!(false, "reads return the last value set");
+        }
+    }
+    kani::cover!(x != m0 && z != b);
+    std::mem::forget(ctx);
+    std::mem::forget(s);
+}
+
 #[kani::proof]
 #[kani::unwind(4)]
-fn scheme_eq__identity_only() {
-    let s1 = scheme_of(&[(Type::Int, true)], true);
-    let s2 = scheme_of(&[(Type::Int, true)], true);
-    let c = s1.clone();
-    assert!(s1 == c && c == s1, "a clone is the same scheme");
-    assert!(s1 != s2, "a structurally identical scheme is a different scheme");
-    std::mem::forget((s1, s2, c));
+fn borrow_with__writes_through_both_set() {
+    borrow_with_contract::<true, true>()
+}
+
+#[kani::proof]
+#[kani::unwind(4)]
+fn borrow_with__writes_through_none_set() {
+    borrow_with_contract::<false, false>()
+}
+
+#[kani::proof]
+#[kani::unwind(4)]
+fn borrow_with__writes_through_second_set() {
+    borrow_with_contract::<false, true>()
+}
+
+/// `take_with(f)`: the view (values, matchers, scheme) moves unchanged into the
+/// new context; the user data is f(old user data).
+fn take_with_contract<const K0: usize, const P0: bool, const P1: bool>() {
+    let a: i64 = kani::any();
+    let b: i64 = kani::any();
+    let s = scheme_with_lists::<K0, 6>(a, b);
+    let mut ctx = ExecutionContext::<u8>::new(&s);
+    let m0: i64 = kani::any();
+    let m1: i64 = kani::any();
+    set_slots2(&mut ctx, slot_of::<K0>(P0, m0), slot_of::<6>(P1, m1));
+    let w: u8 = kani::any();
+    *ctx.get_user_data_mut() = w;
+    let z: i64 = kani::any();
+    rec_mut(ctx.get_list_matcher_mut(list_ref(&s, 0))).id = z;
+    let t = ctx.take_with(|old| (old as u16) + 256);
+    assert!(*t.scheme() == s);
+    assert!(*t.get_user_data() == (w as u16) + 256);
+    assert!(t.values.len() == 2 && t.list_matchers.len() == 2);
+    assert!(slot_is::<K0>(&t.values[0], P0, m0) && slot_is::<6>(&t.values[1], P1, m1), "take_with preserves the values");
+    assert!(rec(&*t.list_matchers[0]).id == z && rec(&*t.list_matchers[1]).id == b, "take_with preserves the matchers");
+    kani::cover!(true);
+    std::mem::forget(t);
+    std::mem::forget(s);
+}
+
+#[kani::proof]
+#[kani::unwind(4)]
+fn take_with__preserves_view_both_set() {
+    take_with_contract::<2, true, true>()
+}
+
+#[kani::proof]
+#[kani::unwind(4)]
+fn take_with__preserves_view_first_empty() {
+    take_with_contract::<0, false, true>()
 }
